@@ -90,7 +90,7 @@ class Session(object):
             return None
         if want is not None and got != want:
             self.bad("bytes_returned", "returned %r, memory holds %r" % (_short(got), _short(want)), inputs)
-        if self.machine.memory.mem != self.model.mem:
+        if not self.machine.memory.same(self.model):
             d = self.machine.memory.diff(self.model)
             clause = "memory_after_write" if writes else "read_changed_memory"
             self.bad(clause, "memory differs from old memory with exactly the written bytes replaced; first differences "
@@ -102,18 +102,18 @@ class Session(object):
     def partial_effect(self, old_model, writes, inputs):
         """after a legitimate TimeoutError: no byte outside the target range changed, inside old or new"""
         if old_model is None:
-            if self.machine.memory.mem != self.model.mem:
+            if not self.machine.memory.same(self.model):
                 self.bad("read_changed_memory", "memory changed by a read that timed out", inputs)
             return
-        new = self.model
-        mem = self.machine.memory
-        keys = set(mem.mem) | set(old_model.mem) | set(new.mem)
-        for k in keys:
-            a_, o_, n_ = mem.mem.get(k, {}), old_model.mem.get(k, {}), new.mem.get(k, {})
-            for a in set(a_) | set(o_) | set(n_):
-                d = sim.default_byte(k, a)
-                if a_.get(a, d) not in (o_.get(a, d), n_.get(a, d)):
-                    self.bad("memory_after_write", "after a timed-out write byte 0x%08x of %r is neither the old nor the new value" % (a, k), inputs)
+        new, mem = self.model, self.machine.memory
+        for k in set(mem.pages) | set(old_model.pages) | set(new.pages):
+            a_, o_, n_ = mem._get(k), old_model._get(k), new._get(k)
+            if a_ == n_ or a_ == o_:
+                continue
+            for i in range(sim.PAGE):
+                if a_[i] != o_[i] and a_[i] != n_[i]:
+                    self.bad("memory_after_write", "after a timed-out write byte 0x%08x of %r is neither the old nor the new value" % (
+                        k[1] * sim.PAGE + i, k[0]), inputs)
                     return
 
     def collect(self, inputs):
@@ -244,7 +244,7 @@ def sweep(ses, tier, rng, stride=1, parts=("rw", "fill", "link", "struct", "vcpu
                             ses.bad("link_unaligned_accepted", "unaligned link access was not refused", dict(inp, call=call))
                         except ValueError:
                             pass
-                        if ses.net.n_sent != sent or ses.machine.memory.mem != model.mem:
+                        if ses.net.n_sent != sent or not ses.machine.memory.same(model):
                             ses.bad("link_unaligned_accepted", "refused link access still sent commands", dict(inp, call=call))
                     continue
                 ses.op(dict(inp, call="write_across_link"), lambda: mc.write_across_link(addr, data, x, y, Links(link)),
